@@ -797,6 +797,7 @@ func switchProbe(ev *recEvaluator) bool {
 }
 
 func runC19(c *Ctx) {
+	runC19Admission(c)
 	n := 1500
 	if c.Thorough {
 		n = 20000
